@@ -136,6 +136,42 @@ func staleHandleScenario(c *sup.Ctx) {
 			stale = append(stale, again)
 		}
 	}
+	// first only look: the dropped collection has no documents any more, whoever asks. Reads and queries through the
+	// stale DataStore may fail, but they must not show documents - neither the dropped collection's former ones nor
+	// those of the collection created afterwards
+	for si, col := range stale {
+		func() {
+			defer func() { _ = recover() }()
+			for _, k := range probeKeys {
+				if raw, _, gerr := col.GetRaw(k); gerr == nil {
+					c.Viol([]string{"C01", "C11"}, "stale-handle|read-sees-document|"+follow,
+						fmt.Sprintf("after handle A dropped %s.%s (%s), GetRaw(%s) through the DataStore handle B holds for the dropped collection returns %q", victim.Scope, victim.Collection, follow, k, raw),
+						map[string]any{"disk": disk, "then": follow, "stale_datastore": si})
+					break
+				}
+			}
+			c.Count("stale_handle_reads", int64(len(probeKeys)))
+			it, qerr := col.Query(sgbucket.SQLiteLanguage, `SELECT json_quote(id) AS id FROM $_keyspace ORDER BY id`, nil, sgbucket.RequestPlus, false)
+			c.Count("stale_handle_queries", 1)
+			if qerr != nil || it == nil {
+				return
+			}
+			var ids []string
+			for {
+				var row map[string]any
+				if !it.Next(ctx, &row) {
+					break
+				}
+				ids = append(ids, fmt.Sprint(row["id"]))
+			}
+			_ = it.Close()
+			if len(ids) > 0 {
+				c.Viol([]string{"C19", "C11"}, "stale-handle|query-sees-documents|"+follow,
+					fmt.Sprintf("after handle A dropped %s.%s (%s), a query over $_keyspace through the DataStore handle B holds for the dropped collection returns %d rows %v: the collection has no documents any more", victim.Scope, victim.Collection, follow, len(ids), ids),
+					map[string]any{"disk": disk, "then": follow, "stale_datastore": si})
+			}
+		}()
+	}
 	calls, failed := 0, 0
 	do := func(f func() error) {
 		defer func() {
